@@ -53,6 +53,9 @@ type Options struct {
 	// data groups besides DG1 (always) / DG14 / DG15 (when keys exist): any of 2,7,11,12,13,16
 	DGs      []int
 	DG13Size int // DG13 is opaque content: total file size to generate (0 = sample)
+	// DG13LongLength (with DG13Size > 0): the outer length of DG13 is written in a longer form than the shortest
+	// (81 xx below 128, 82 00 xx below 256; unchanged from 256 on, where a longer form no longer fits a 4-octet header): legal BER, and the stored file is what is hashed
+	DG13LongLength bool
 	// PKI
 	KeySpec       pki.KeySpec
 	IssuerTrusted bool // CSCA in the trust store handed to the reader
@@ -305,6 +308,23 @@ func New(o Options) (*Passport, error) {
 		case 13:
 			if o.DG13Size > 0 {
 				p.DGBytes[13] = opaqueDG13(o.DG13Size, rnd)
+				if o.DG13LongLength {
+					hdr := 2
+					if p.DGBytes[13][1] >= 0x80 {
+						hdr = 2 + int(p.DGBytes[13][1]&0x7f)
+					}
+					v := p.DGBytes[13][hdr:]
+					var l []byte
+					switch n := len(v); {
+					case n < 128:
+						l = []byte{0x81, byte(n)}
+					case n < 256:
+						l = []byte{0x82, 0x00, byte(n)}
+					}
+					if l != nil { // longer forms would not fit the 4-octet header read (premise of C08, see DESIGN.md)
+						p.DGBytes[13] = append(append([]byte{0x6D}, l...), v...)
+					}
+				}
 			} else {
 				p.DGBytes[13] = sampleDG(13)
 			}
